@@ -41,10 +41,14 @@ def fl(xs):
 def S(s):
     return '"%s"%%string' % s
 
-def at_float_discontinuity(xs, ys, vals):
+def at_float_discontinuity(xs, ys, vals, inexact=False):
     """step ecdf of xs at vals, then IECDF of ys: (len(ys)-1) * (k/len(xs)) exactly an integer with a non-dyadic k/len(xs):
     float64 may land on either side of the floor (statsmodels builds the step values with np.linspace, so even dyadic k/n are inexact); such cases are skipped (counted)"""
     m, n = len(xs), len(ys)
+    if inexact and set(vals) & set(xs):
+        # the evaluation points come out of a floating-point computation (detrending by a difference / ratio of
+        # means) and one of them equals a sample value in exact arithmetic: a jump of the step ecdf is hit exactly
+        return True
     for v in vals:
         k = sum(1 for x in xs if x <= v)
         p = Fraction(k, m)
@@ -95,7 +99,7 @@ def k5(res, tier, seed, tag="k5", n_quick=25, n_thorough=250):
                     if mt == "nonparametric":
                         delta = {"additive": sum(f, Fraction(0)) / len(f) - sum(h, Fraction(0)) / len(h), "no_detrending": 0}.get(det)
                         vals = [x - delta for x in f] if delta is not None else [x / ((sum(f, Fraction(0)) / len(f)) / (sum(h, Fraction(0)) / len(h))) for x in f]
-                        if at_float_discontinuity(h, o, vals):
+                        if at_float_discontinuity(h, o, vals, inexact=(det != "no_detrending")):
                             res.count("skipped-at-float-discontinuity"); continue
                     thr = Fraction(1, 10 ** r.choice([2, 3, 10]))
                     d = D.QuantileMapping(distribution=rat, mapping_type=mt, detrending=det, cdf_threshold=float(thr))
